@@ -2,8 +2,8 @@
 from .. import bb, chain as K, gen_index as GI
 
 NAMESPACE = "Rbp.Props.C04"
-REQUIRED = ["walk_eq_active"]
-LEAN_FILES = ["Rbp/Model/Walk.lean", "Rbp/Model/Run.lean"]
+REQUIRED = ["walk_eq_active", "index_is_active_chain", "competitors_invisible", "filter_spec"]
+LEAN_FILES = ["Rbp/Model/Walk.lean", "Rbp/Model/Run.lean", "Rbp/Proofs/Index.lean"]
 RULE = ("black-box runs on generated block indexes = active chain 0..T (validity VALID_SCRIPTS, data+undo) plus 1..5 competitors drawn from: header-only records at/below/above the tip, never-connected stale siblings with data "
         "(also on top of the tip), failed blocks (FAILED_VALID / FAILED_CHILD, with and without data, also above the tip), once-active reorged-out branches of length 1..5 with tips below T, foreign f/l/F/R keys; competitor hashes are ground to sort "
         "before or after the active record of their height; kv insertion order shuffled. Observables: hash/hashPrev/height columns of blocks-*.csv vs the active chain (spec-level oracle) and every callback's output vs the model. "
